@@ -29,6 +29,34 @@ from sa.report import AnalysisError
 from sa.types import walk_own
 
 
+def rename_rule(ctx, prog, rid):
+    """PresentationPart.rename_slide_parts names the part of the i-th relationship id slide<i+1> (shared by C16 R16.5 and C06 R6.3)."""
+    pp = prog.cls("pptx.parts.presentation", "PresentationPart")
+    rn = pp.methods.get("rename_slide_parts")
+    good = False
+    for n in ast.walk(rn.node) if rn else []:
+        if isinstance(n, ast.For) and isinstance(n.iter, ast.Call) and dotted(n.iter.func) == "enumerate" \
+                and dotted(n.iter.args[0]) == rn.node.args.args[1].arg and len(n.iter.args) == 1 and not n.iter.keywords:
+            iv, rv = [e.id for e in n.target.elts]
+            name_ok = part_ok = False
+            for m in ast.walk(n):
+                if isinstance(m, ast.BinOp) and isinstance(m.op, ast.Mod) and isinstance(m.left, ast.Constant) \
+                        and m.left.value == "/ppt/slides/slide%d.xml":
+                    from sa.poly import Poly, of_expr
+
+                    arg = m.right.elts[0] if isinstance(m.right, ast.Tuple) else m.right
+                    name_ok = of_expr(arg) == Poly.sym(iv) + Poly.const(1)
+                if isinstance(m, ast.Call) and dotted(m.func) == "self.related_part" and dotted(m.args[0]) == rv:
+                    part_ok = True
+            cond = any(isinstance(x, (ast.If, ast.Continue, ast.Break)) for x in ast.walk(n))
+            good = name_ok and part_ok and not cond
+    if good:
+        ctx.ok(rid, "PresentationPart.rename_slide_parts", sample={"name": "/ppt/slides/slide<i+1>.xml for the i-th rId, unconditionally"})
+    else:
+        ctx.violation(rid, "PresentationPart.rename_slide_parts", "slide parts are not named slide<i+1> for the i-th relationship id",
+                      file=pp.file, line=rn.line if rn else pp.line)
+
+
 def core_properties_default_rule(ctx, prog, rid):
     """A package without core properties gains a related default part on first access (shared by C16 R16.4 and C18 R18.5)."""
     pkg = prog.cls("pptx.package", "Package")
@@ -401,30 +429,7 @@ def run(ctx):
 
     # -- R16.5 -------------------------------------------------------------------------------------------
     ctx.rule("R16.5", "slide parts are renamed slide1..n in presentation order")
-    pp = prog.cls("pptx.parts.presentation", "PresentationPart")
-    rn = pp.methods.get("rename_slide_parts")
-    good = False
-    for n in ast.walk(rn.node) if rn else []:
-        if isinstance(n, ast.For) and isinstance(n.iter, ast.Call) and dotted(n.iter.func) == "enumerate" \
-                and dotted(n.iter.args[0]) == rn.node.args.args[1].arg and len(n.iter.args) == 1 and not n.iter.keywords:
-            iv, rv = [e.id for e in n.target.elts]
-            name_ok = part_ok = False
-            for m in ast.walk(n):
-                if isinstance(m, ast.BinOp) and isinstance(m.op, ast.Mod) and isinstance(m.left, ast.Constant) \
-                        and m.left.value == "/ppt/slides/slide%d.xml":
-                    from sa.poly import Poly, of_expr
-
-                    arg = m.right.elts[0] if isinstance(m.right, ast.Tuple) else m.right
-                    name_ok = of_expr(arg) == Poly.sym(iv) + Poly.const(1)
-                if isinstance(m, ast.Call) and dotted(m.func) == "self.related_part" and dotted(m.args[0]) == rv:
-                    part_ok = True
-            cond = any(isinstance(x, (ast.If, ast.Continue, ast.Break)) for x in ast.walk(n))
-            good = name_ok and part_ok and not cond
-    if good:
-        ctx.ok("R16.5", "PresentationPart.rename_slide_parts", sample={"name": "/ppt/slides/slide<i+1>.xml for the i-th rId, unconditionally"})
-    else:
-        ctx.violation("R16.5", "PresentationPart.rename_slide_parts", "slide parts are not named slide<i+1> for the i-th relationship id",
-                      file=pp.file, line=rn.line if rn else pp.line)
+    rename_rule(ctx, prog, "R16.5")
     prs = prog.cls("pptx.presentation", "Presentation")
     sl = prs.methods.get("slides")
     good = False
